@@ -85,19 +85,18 @@ def check_qlm(run, pkg, weighted):
             Wsrc = e.data["result"]
     if NL is None:
         raise AnalysisError(f"{fq}[{v}]: neighbour table not read from self.neighborfile in the frame loop")
-    okf = Lf.iter == SNAPS
-    run.ob("R-LOOPDOM", fq, f"{v}:frames", okf, "every frame is processed", show(Lf.iter)[:50], witness=None if okf else "frames skipped", loc=fi.loc(Lf.node))
-    okp = Li.iter == ("call", "builtins.range", (("attr", snap, "nparticle"),), ())
-    run.ob("R-LOOPDOM", fq, f"{v}:particles", okp, "every particle gets a vector", show(Li.iter)[:50], witness=None if okp else "particles skipped", loc=fi.loc(Li.node))
-    okj = Lj.iter == ("call", "builtins.range", (nbr_count(NL, i),), ())
+    okf = eqv(Lf.iter, SNAPS)
+    run.ob("R-LOOPDOM", fq, f"{v}:frames", okf, "every frame is processed", show(Lf.iter)[:50], witness=None if okf else "frames skipped", loc=fi.loc(Lf.node), sound=True)
+    okp = eqv(Li.iter, ("call", "builtins.range", (("attr", snap, "nparticle"),), ()))
+    run.ob("R-LOOPDOM", fq, f"{v}:particles", okp, "every particle gets a vector", show(Li.iter)[:50], witness=None if okp else "particles skipped", loc=fi.loc(Li.node), sound=True)
+    okj = eqv(Lj.iter, ("call", "builtins.range", (nbr_count(NL, i),), ()))
     run.ob("R-LOOPDOM", fq, f"{v}:neighbours", okj, "the sum runs over all cn_i neighbours of particle i", show(Lj.iter)[:80],
-           witness=None if okj else "neighbours skipped / padding zeros (particle 0) counted as neighbours", loc=fi.loc(Lj.node))
+           witness=None if okj else "neighbours skipped / padding zeros (particle 0) counted as neighbours", loc=fi.loc(Lj.node), sound=True)
     okrow = ev.data["target"][2] == i
     run.ob("R-IDX", fq, f"{v}:row", okrow, "contributions of particle i's bonds are added to row i", show(ev.data["target"][2]), witness=None if okrow else "stored at another particle's row", loc=loc)
     shp = Z[2][0] if Z[0] == "call" and Z[1] == "numpy.zeros" and Z[2] else None
-    oksh = shp is not None and shp[0] == "tuple" and len(shp[1]) == 2 and shp[1][0] == ("attr", snap, "nparticle") and \
-        S.decide_equal(S.to_sympy(shp[1][1], lambda t: sp.Symbol("l") if t == LDEG else None), 2 * sp.Symbol("l") + 1)[0] is True and kw(Z, "dtype") in (("mod", "numpy.complex128"), ("builtin", "complex"))
-    run.ob("R-ALG", fq, f"{v}:shape", bool(oksh), "per-frame array is complex zeros of shape (nparticle, 2l+1)", show(Z)[:80], witness=None if oksh else "m = -l..l does not fit / real dtype drops phases", loc=loc)
+    oksh = tri_lazy(lambda: (True if (shp is not None) else None), lambda: (True if (shp[0] == "tuple") else None), lambda: (True if (len(shp[1]) == 2) else None), lambda: eqv(shp[1][0], ("attr", snap, "nparticle")), lambda: (True if (S.decide_equal(S.to_sympy(shp[1][1], lambda t: sp.Symbol("l") if t == LDEG else None), 2 * sp.Symbol("l") + 1)[0] is True) else None), lambda: eqv(kw(Z, "dtype"), ("mod", "numpy.complex128"), ("builtin", "complex")))
+    run.ob("R-ALG", fq, f"{v}:shape", bool(oksh), "per-frame array is complex zeros of shape (nparticle, 2l+1)", show(Z)[:80], witness=None if oksh else "m = -l..l does not fit / real dtype drops phases", loc=loc, sound=True)
     # ---- the harmonic call and its optional weight factor
     val = ev.data["value"]
     call, wfac = val, None
@@ -111,8 +110,8 @@ def check_qlm(run, pkg, weighted):
     args = list(call[2]) + [None] * 3
     bound = {params[k]: call[2][k] for k in range(min(len(params), len(call[2])))}
     bound.update(dict(call[3]))
-    okl = bound.get("l") == LDEG
-    run.ob("R-ANGLE", fq, f"{v}:degree", okl, "the harmonics are evaluated at the instance's degree l", show(bound.get("l"))[:30] if bound.get("l") else "?", witness=None if okl else "another degree", loc=loc)
+    okl = eqv(bound.get("l"), LDEG)
+    run.ob("R-ANGLE", fq, f"{v}:degree", okl, "the harmonics are evaluated at the instance's degree l", show(bound.get("l"))[:30] if bound.get("l") else "?", witness=None if okl else "another degree", loc=loc, sound=True)
     th, ph = bound.get("theta"), bound.get("phi")
     if th is None or ph is None or not (th[0] == "sub" and ph[0] == "sub"):
         run.ob("R-ANGLE", fq, f"{v}:call", None, "harmonics called with per-bond (theta, phi)", show(call)[:100], loc=loc)
@@ -147,10 +146,10 @@ def check_qlm(run, pkg, weighted):
         rev = bv["snap"] == snap and is_nbr_slice_gather(bv["right"], NL, i) and bv["left"] == i
         run.ob("R-PBC", fq, f"{v}:bond", okb, "bond vectors are positions[neighbours of i] - positions[i] within the frame", f"[{show(bv['left'])[:60]}] - [{show(bv['right'])[:30]}]",
                witness=None if okb else ("centre - neighbour: every bond reversed, odd-l harmonics change sign (w_l for odd l flips)" if rev else "bond vectors do not join i to its listed neighbours"), loc=loc)
-        okh = bv["H"] == ("attr", snap, "hmatrix")
-        run.ob("R-PBC", fq, f"{v}:cell", okh, "minimum image uses the frame's cell", show(bv["H"])[:50], witness=None if okh else "cell of another frame", loc=loc)
-        okm = bv["ppp"] == ("attr", SELF, "ppp")
-        run.ob("R-PBC", fq, f"{v}:mask", okm, "the instance's periodicity mask is forwarded", show(bv["ppp"])[:40] if bv["ppp"] else "default", witness=None if okm else "mask dropped", loc=loc)
+        okh = eqv(bv["H"], ("attr", snap, "hmatrix"))
+        run.ob("R-PBC", fq, f"{v}:cell", okh, "minimum image uses the frame's cell", show(bv["H"])[:50], witness=None if okh else "cell of another frame", loc=loc, sound=True)
+        okm = eqv(bv["ppp"], ("attr", SELF, "ppp"))
+        run.ob("R-PBC", fq, f"{v}:mask", okm, "the instance's periodicity mask is forwarded", show(bv["ppp"])[:40] if bv["ppp"] else "default", witness=None if okm else "mask dropped", loc=loc, sound=True)
     # ---- normalisation
     lx = [e for e in it.events if e.kind == "loop_exit" and e.data["loop"] == Li.id]
     divs = [e for e in it.events if e.kind == "aug" and e.data["op"] == "/" and e.data["old"] == Z] + \
@@ -175,9 +174,9 @@ def check_qlm(run, pkg, weighted):
             Wt = None
             if frac[0] == "bin" and frac[1] == "/":
                 Wt, den = frac[2], col_bcast(frac[3])
-                okden = den in (("call", ".sum", (Wt,), (("axis", C(1)),)), ("call", "numpy.sum", (Wt,), (("axis", C(1)),))) and frac[3] != den
+                okden = tri_lazy(lambda: eqv(den, ("call", ".sum", (Wt,), (("axis", C(1)),)), ("call", "numpy.sum", (Wt,), (("axis", C(1)),))), lambda: (True if (frac[3] != den) else None))
                 run.ob("R-ALG", fq, "weighted:normalised", okden, "weights of a particle are divided by their row sum", show(frac[3])[:80],
-                       witness=None if okden else "weights 2, 2 (equal): the result differs from the unweighted mean", loc=loc)
+                       witness=None if okden else "weights 2, 2 (equal): the result differs from the unweighted mean", loc=loc, sound=True)
             # column offset of the weight table relative to the neighbour index
             off = None
             base = Wt
@@ -236,18 +235,18 @@ def check_qlm(run, pkg, weighted):
     fromQ = src[0] == "sub" and src[1] == Q
     run.ob("R-ALG", fq, f"{v}:coarse:sum", oksrc, "adds the *local* vector of neighbour j (column j + 1 of row i) to particle i", key_of(ce)[:100],
            witness=None if oksrc else ("neighbours' partially coarse-grained vectors are added: the result depends on particle order" if fromQ else "wrong neighbour column / wrong source"), loc=loc_of(it, ce))
-    okdom = Lci.iter == ("call", "builtins.range", (("attr", snap, "nparticle"),), ()) and Lcj.iter == ("call", "builtins.range", (nbr_count(NL, ci),), ())
+    okdom = tri_lazy(lambda: eqv(Lci.iter, ("call", "builtins.range", (("attr", snap, "nparticle"),), ())), lambda: eqv(Lcj.iter, ("call", "builtins.range", (nbr_count(NL, ci),), ())))
     run.ob("R-LOOPDOM", fq, f"{v}:coarse:domain", okdom, "all particles and all their cn_i neighbours enter the coarse-graining sum", f"{show(Lci.iter)[:40]} x {show(Lcj.iter)[:60]}",
-           witness=None if okdom else "neighbours skipped", loc=loc_of(it, ce))
+           witness=None if okdom else "neighbours skipped", loc=loc_of(it, ce), sound=True)
     lxc = [e for e in it.events if e.kind == "loop_exit" and e.data["loop"] == Lci.id]
     fin = [e for e in it.events if e.kind == "assign" and e.data["value"][0] == "bin" and e.data["value"][1] == "/" and e.data["value"][2] == Q and set(e.loops) == {Lf.id}] + \
           [e for e in it.events if e.kind == "aug" and e.data["op"] == "/" and e.data["old"] == Q and set(e.loops) == {Lf.id}]
     okdiv = False
     if len(fin) == 1 and lxc and fin[0].seq > lxc[0].seq:
         den = fin[0].data["value"][3] if fin[0].kind == "assign" else fin[0].data["value"]
-        okdiv = col_bcast(den) in (("bin", "+", C(1), cn_col), ("bin", "+", cn_col, C(1))) and den != col_bcast(den)
+        okdiv = tri_lazy(lambda: eqv(col_bcast(den), ("bin", "+", C(1), cn_col), ("bin", "+", cn_col, C(1))), lambda: (True if (den != col_bcast(den)) else None))
     run.ob("R-ALG", fq, f"{v}:coarse:mean", okdiv, "the coarse-grained sum is divided by 1 + cn_i once, after the loops", f"{len(fin)} divisions" + (f": {key_of(fin[0])[:70]}" if fin else ""),
-           witness=None if okdiv else "normalisation is not 1 + coordination number", loc=loc_of(it, fin[0]) if fin else fi.loc())
+           witness=None if okdiv else "normalisation is not 1 + coordination number", loc=loc_of(it, fin[0]) if fin else fi.loc(), sound=True)
     # ---- returned pair
     ret = it.returns[0].data["value"] if len(it.returns) == 1 else None
     okret = False
@@ -273,11 +272,11 @@ def check_init(run, pkg):
     fq = short(pkg.cls(CLS).methods["__init__"].qual)
     call = ("call", pkg.cls(CLS).methods["qlm_Qlm"].qual, (SELF,), ())
     a, b = attrs.get("smallqlm"), attrs.get("largeQlm")
-    ok = a == ("elem", call, 0) and b == ("elem", call, 1)
+    ok = tri_lazy(lambda: eqv(a, ("elem", call, 0)), lambda: eqv(b, ("elem", call, 1)))
     if not ok and a is not None and b is not None:
-        ok = a == ("elem", ("call", pkg.cls(CLS).methods["qlm_Qlm"].qual, (), ()), 0) and b[2] == 1
+        ok = tri_lazy(lambda: eqv(a, ("elem", ("call", pkg.cls(CLS).methods["qlm_Qlm"].qual, (), ()), 0)), lambda: (True if (b[2] == 1) else None))
     run.ob("R-ALG", fq, "stored-vectors", ok, "self.smallqlm / self.largeQlm are the (local, coarse-grained) pair returned by qlm_Qlm, in that order", f"{show(a)[:50] if a else None}, {show(b)[:50] if b else None}",
-           witness=None if ok else "local and coarse-grained vectors exchanged for every derived quantity", loc=pkg.cls(CLS).methods["__init__"].loc())
+           witness=None if ok else "local and coarse-grained vectors exchanged for every derived quantity", loc=pkg.cls(CLS).methods["__init__"].loc(), sound=True)
 
 
 def method_interp(pkg, name, coarse):
@@ -337,9 +336,9 @@ def check_sij(run, pkg, coarse):
     ev = st[0]
     loc = loc_of(it, ev)
     Lf, Li = it.loops[ev.loops[0]], it.loops[ev.loops[1]]
-    okf = Lf.iter == ("call", "builtins.enumerate", (SNAPS,), ())
+    okf = eqv(Lf.iter, ("call", "builtins.enumerate", (SNAPS,), ()))
     n, snap, i = ("elem", Lf.target, 0), ("elem", Lf.target, 1), Li.target
-    run.ob("R-LOOPDOM", fq, f"{tag}:frames", okf, "every frame is processed with its index", show(Lf.iter)[:60], witness=None if okf else "frame index / frame mismatch", loc=fi.loc(Lf.node))
+    run.ob("R-LOOPDOM", fq, f"{tag}:frames", okf, "every frame is processed with its index", show(Lf.iter)[:60], witness=None if okf else "frame index / frame mismatch", loc=fi.loc(Lf.node), sound=True)
     rd = [e for e in calls(it, READER) if set(e.loops) == {Lf.id}]
     if len(rd) != 1:
         raise AnalysisError(f"{fq}: neighbour table not read once per frame")
@@ -397,8 +396,8 @@ def check_sij(run, pkg, coarse):
     run.ob("R-ALG", fq, f"{tag}:denominator", okdn, "denominator = |q_i| |q_j| with |q| = sqrt(sum_m |q_lm|^2) of the same vectors, same particles", show(down)[:120],
            witness=None if okdn else "s_ij is not normalised by the two vector norms: |s_ij| <= 1 fails", loc=loc)
     tgt = ev.data["target"][2][1]
-    okt = tgt[0] == i and tgt[1] == ("slice", NONE, cn, NONE)
-    run.ob("R-IDX", fq, f"{tag}:slots", okt, "the cn_i values fill slots [0, cn_i) of row i (rest stays 0)", show(ev.data["target"][2])[:60], witness=None if okt else "values shifted / truncated", loc=loc)
+    okt = tri_lazy(lambda: (True if (tgt[0] == i) else None), lambda: eqv(tgt[1], ("slice", NONE, cn, NONE)))
+    run.ob("R-IDX", fq, f"{tag}:slots", okt, "the cn_i values fill slots [0, cn_i) of row i (rest stays 0)", show(ev.data["target"][2])[:60], witness=None if okt else "values shifted / truncated", loc=loc, sound=True)
     # thresholded count
     cnt = [e for e in stores(it) if e.data["target"][2] == ("tuple", (FULL, C(1)))]
     okc = False
@@ -431,8 +430,8 @@ def check_w(run, pkg, coarse):
     loc = loc_of(it, ev)
     Ln, Li = it.loops[ev.loops[0]], it.loops[ev.loops[1]]
     n, i = Ln.target, Li.target
-    okd = Ln.iter == ("call", "builtins.range", (("sub", ("attr", X, "shape"), C(0)),), ()) and Li.iter == ("call", "builtins.range", (("sub", ("attr", X, "shape"), C(1)),), ())
-    run.ob("R-LOOPDOM", fq, f"{tag}:domain", okd, "w is computed for every frame and particle of the selected vectors", f"{show(Ln.iter)[:50]} x {show(Li.iter)[:50]}", witness=None if okd else "entries skipped / other array's extent", loc=loc)
+    okd = tri_lazy(lambda: eqv(Ln.iter, ("call", "builtins.range", (("sub", ("attr", X, "shape"), C(0)),), ())), lambda: eqv(Li.iter, ("call", "builtins.range", (("sub", ("attr", X, "shape"), C(1)),), ())))
+    run.ob("R-LOOPDOM", fq, f"{tag}:domain", okd, "w is computed for every frame and particle of the selected vectors", f"{show(Ln.iter)[:50]} x {show(Li.iter)[:50]}", witness=None if okd else "entries skipped / other array's extent", loc=loc, sound=True)
     WI = ("call", "PyMatterSim.utils.funcs.Wignerindex", (LDEG,), ())
     idx = ("bin", "+", ("call", ".astype", (("sub", WI, ("tuple", (FULL, ("slice", NONE, C(3), NONE)))), ("mod", "numpy.int64")), ()), LDEG)
     w3 = ("sub", WI, ("tuple", (FULL, C(3))))
@@ -477,19 +476,19 @@ def check_corr(run, pkg, coarse):
         raise AnalysisError(f"{fq}: expected one conditional_gr call per frame")
     c = cg[0].data["call"]
     L = it.loops[cg[0].loops[0]]
-    okf = L.iter == ("call", "builtins.enumerate", (SNAPS,), ())
+    okf = eqv(L.iter, ("call", "builtins.enumerate", (SNAPS,), ()))
     n, snap = ("elem", L.target, 0), ("elem", L.target, 1)
     k = dict(c[3])
     params = pkg.func("static.gr.conditional_gr").params
     for p_, a_ in zip(params, c[2]):
         k[p_] = a_
-    ok = okf and k.get("snapshot") == snap and k.get("condition") == ("sub", X, n) and k.get("conditiontype") == C("vector") and k.get("ppp") == ("attr", SELF, "ppp") and k.get("rdelta") == ("sym", "rdelta")
+    ok = tri_lazy(lambda: (True if (okf) else None), lambda: (True if (k.get("snapshot") == snap) else None), lambda: eqv(k.get("condition"), ("sub", X, n)), lambda: eqv(k.get("conditiontype"), C("vector")), lambda: eqv(k.get("ppp"), ("attr", SELF, "ppp")), lambda: eqv(k.get("rdelta"), ("sym", "rdelta")))
     run.ob("R-ALIGN", fq, f"{tag}:spatial", ok, "G_l(r) of frame n = conditional_gr(frame n, vectors of frame n, kind 'vector', instance mask, rdelta)",
-           ", ".join(f"{a}={show(b)[:30]}" for a, b in k.items()), witness=None if ok else "vectors of another frame / scalar kind (components not summed) / mask dropped", loc=loc_of(it, cg[0]))
+           ", ".join(f"{a}={show(b)[:30]}" for a, b in k.items()), witness=None if ok else "vectors of another frame / scalar kind (components not summed) / mask dropped", loc=loc_of(it, cg[0]), sound=True)
     aug = [e for e in it.events if e.kind == "aug" and e.data["op"] == "+" and e.data["value"] == cg[0].data["result"]]
     div = [e for e in it.events if e.kind == "aug" and e.data["op"] == "/" and not e.loops]
-    oka = len(aug) == 1 and aug[0].data["old"][0] == "mu" and aug[0].data["old"][3] == C(0) and len(div) == 1 and div[0].data["value"] == ("attr", ("attr", SELF, "snapshots"), "nsnapshots")
-    run.ob("R-ALG", fq, f"{tag}:spatial-average", oka, "frames are summed from 0 and divided by the number of frames", f"{len(aug)} sums, {len(div)} divisions", witness=None if oka else "not a frame average", loc=fi.loc())
+    oka = tri_lazy(lambda: (True if (len(aug) == 1) else None), lambda: (True if (aug[0].data["old"][0] == "mu") else None), lambda: eqv(aug[0].data["old"][3], C(0)), lambda: (True if (len(div) == 1) else None), lambda: eqv(div[0].data["value"], ("attr", ("attr", SELF, "snapshots"), "nsnapshots")))
+    run.ob("R-ALG", fq, f"{tag}:spatial-average", oka, "frames are summed from 0 and divided by the number of frames", f"{len(aug)} sums, {len(div)} divisions", witness=None if oka else "not a frame average", loc=fi.loc(), sound=True)
     # time
     it = method_interp(pkg, "time_corr", coarse)
     fi = it.fi
@@ -498,16 +497,16 @@ def check_corr(run, pkg, coarse):
     if len(tc) != 1:
         raise AnalysisError(f"{fq}: expected one time_correlation call")
     k = dict(tc[0].data["call"][3])
-    ok = k.get("snapshots") == ("attr", SELF, "snapshots") and k.get("condition") == X and k.get("dt") == ("sym", "dt")
+    ok = tri_lazy(lambda: eqv(k.get("snapshots"), ("attr", SELF, "snapshots")), lambda: (True if (k.get("condition") == X) else None), lambda: eqv(k.get("dt"), ("sym", "dt")))
     run.ob("R-ALIGN", fq, f"{tag}:time", ok, "time correlation of the selected vectors over the instance's trajectory with the caller's dt", ", ".join(f"{a}={show(b)[:30]}" for a, b in k.items()),
-           witness=None if ok else "other vectors / dt ignored", loc=loc_of(it, tc[0]))
+           witness=None if ok else "other vectors / dt ignored", loc=loc_of(it, tc[0]), sound=True)
     res = tc[0].data["result"]
     sts = [e for e in stores(it) if e.data["target"] == ("sub", res, C("time_corr"))]
     ls = sp.Symbol("l", positive=True)
     ok1 = len(sts) >= 2 and sts[0].data["op"] == "*" and S.decide_equal(S.to_sympy(sts[0].data["value"], lambda t: ls if t == LDEG else None), 4 * sp.pi / (2 * ls + 1))[0] is True
-    ok2 = len(sts) >= 2 and sts[-1].data["op"] == "/" and sts[-1].data["value"] == ("sub", ("attr", res, "loc"), ("tuple", (C(0), C("time_corr"))))
+    ok2 = tri_lazy(lambda: (True if (len(sts) >= 2) else None), lambda: (True if (sts[-1].data["op"] == "/") else None), lambda: eqv(sts[-1].data["value"], ("sub", ("attr", res, "loc"), ("tuple", (C(0), C("time_corr"))))))
     run.ob("R-ALG", fq, f"{tag}:time-norm", bool(ok1 and ok2), "the correlation is scaled by 4 pi/(2l+1) and then divided by its lag-0 value", "; ".join(key_of(e)[:60] for e in sts),
-           witness=None if ok1 and ok2 else "C(0) != 1 / scaling changed", loc=fi.loc())
+           witness=None if ok1 and ok2 else "C(0) != 1 / scaling changed", loc=fi.loc(), sound=True)
     sv = calls(it, ".to_csv")
     oks = all(e.data["call"][2][0] == res and e.seq > max(s.seq for s in sts) for e in sv) if sts else False
     run.ob("R-SAVE", fq, f"{tag}:time-csv", oks, "the CSV is written from the returned table after normalisation", f"{len(sv)} saves", witness=None if oks else "file holds unnormalised values", loc=fi.loc())
